@@ -8,7 +8,7 @@ import (
 
 // Every generated function has these parameters; impure operands are calls of the functions declared
 // in Preamble (in differential programs they log their name and return values from a script).
-const Params = "a, b, c int, u, v uint, p, q float64, s, t string, k, l bool, xs []int, bs []byte"
+const Params = "a, b, c int, u, v uint, p, q float64, s, t string, k, l bool, xs []int, bs []byte, ms myStr, mi myInts, mm myMap, ma myArr, pa *myArr, w *wr"
 
 // Preamble for files that are only analysed (never run).
 const LintPreamble = `
@@ -26,6 +26,28 @@ func fxs() []int    { return nil }
 type st struct{ n int }
 
 func (r st) add(x int) int { return r.n + x }
+
+// defined (named) types and indirectly mutable state, as operands for type- and purity-sensitive rules
+type myStr string
+type myInts []int
+type myMap map[int]string
+type myArr [3]int
+
+type myErr struct{}
+
+func (myErr) Error() string { return "e" }
+
+type wr struct {
+	err error
+	buf []int
+}
+
+func (w *wr) flush() { w.err = myErr{}; w.buf = []int{1} }
+func (w *wr) peek() int { return len(w.buf) }
+
+var gxs []int
+
+func setG() { gxs = []int{1} }
 `
 
 // Flavour of a generated expression: decides which hazards may occur together, so that a failing
